@@ -16,6 +16,7 @@ from voluptuous import Schema, Required, Any, All, Length, Coerce
 
 from mitxgraders.baseclasses import ItemGrader
 from mitxgraders.exceptions import InvalidInput, ConfigError, MissingInput
+from mitxgraders.helpers.calc.exceptions import UndefinedVariable
 from mitxgraders.comparers import CorrelatedComparer
 from mitxgraders.sampling import (VariableSamplingSet, RealInterval, DiscreteSet, DependentSampler,
                                   gen_symbols_samples, construct_functions,
@@ -546,11 +547,20 @@ class MathMixin(object):
             if isinstance(entry, dict):
                 if all([k.startswith('sibling_') for k in entry]):
                     # This is a sibling dictionary. Add it to the list of variables to sample.
+                    known = set(variables).union(self.constants)
                     for k in entry:
                         variables.append(k)
                         if entry[k] == '':
                             raise MissingInput('Cannot grade answer, a required input is missing.')
                         sample_from_dict[k] = DependentSampler(formula=entry[k])
+                    # A sibling formula is student input: a name in it that nothing defines (or
+                    # another sibling, which students may not use) is the student's mistake, not
+                    # a misconfigured DependentSampler
+                    for k in entry:
+                        unknown = sorted(set(sample_from_dict[k].config['depends']) - known)
+                        if unknown:
+                            msg = "Invalid Input: '{}' not permitted in answer as a variable"
+                            raise UndefinedVariable(msg.format("', '".join(unknown)))
                     break
         
         # Generate the samples
